@@ -63,6 +63,13 @@ const (
 	InvAugLeaf         = "aug-leaf-target"
 	InvAugCollision    = "aug-collision"
 	InvAugCollisionOwn = "aug-collision-existing"
+	// InvAugRelative: a top-level augment whose path lacks the leading "/" and
+	// whose body holds a node named like the path's first step (a lookup
+	// relative to the augment itself would find that).  NOT part of any
+	// profile: goyang deliberately resolves relative augment paths from the
+	// augment's own entry (its suite has `augment "../alpha"`), so demanding
+	// an error here would demand more than C07 states.
+	InvAugRelative = "aug-relative-path"
 	InvUsesCycle       = "uses-cycle"
 	InvTypedefCycle    = "typedef-cycle"
 	InvIdentityCycle   = "identity-cycle"
@@ -1145,6 +1152,15 @@ func (g *gen) augments() {
 			a.When = "../" + g.id("w")
 		}
 		switch {
+		case g.wantInvalid(InvAugRelative):
+			nm := g.id("c")
+			a.Target = []Step{{am.Name, nm}}
+			a.Relative = true
+			a.Bare = t.Chance(1, 2)
+			a.Body = []*Node{{Kind: KContainer, Name: nm, Kids: []*Node{{Kind: KLeaf, Name: g.id("l"), Type: &Type{Ref: Ref{Mod: "", Name: "string"}}}}}}
+			a.Invalid = InvAugRelative
+			am.Augments = append(am.Augments, a)
+			continue
 		case g.wantInvalid(InvAugMissing):
 			a.Target = append(append([]Step(nil), tg.steps...), Step{tg.steps[len(tg.steps)-1].Mod, g.id("nosuchnode")})
 			a.Invalid = InvAugMissing
